@@ -157,6 +157,8 @@ pub trait CepstrumT: Buffer + Sized {
         let mut f = vec![0.0; cepstrum.len()];
 
         for i in 0..self.len() {
+            #[cfg(jbonsai_verif)]
+            crate::verif::yield_point(27);
             f[0] = cepstrum[0];
             cepstrum[0] = self[i] + alpha * cepstrum[0];
             if 1 <= m2 {
@@ -176,6 +178,8 @@ pub trait CepstrumT: Buffer + Sized {
         let mut ir = vec![0.0; len];
         ir[0] = self[0].exp();
         for n in 1..len {
+            #[cfg(jbonsai_verif)]
+            crate::verif::yield_point(26);
             let mut d = 0.0;
             for k in 1..self.len().min(n + 1) {
                 d += k as f64 * self[k] * ir[n - k];
